@@ -51,21 +51,22 @@ class C12(Check):
         if tier == 'quick':
             return {'statistics': 'P<=5 K=2 n in {1,2}; biased symbolic', 'tasks': 'K<=3, (N,W) in {(1,1),(2,1),(1,2)}, all completion orders',
                     'after repopulation': 'P=5,K=2,m=1', 'rounds with real repopulation': 'P=5, K=2, m=2, 3 rounds'}
-        return {'statistics': 'P<=6 K<=3 n in {1,2,3}; biased symbolic', 'tasks': 'K<=4, (N,W) in {(1,1),(2,1),(1,2),(2,2),(1,3)}, all completion orders',
-                'after repopulation': 'P<=6,K<=3,m<=2', 'rounds with real repopulation': 'P in {5,6}, K=2, m in {2,3}, 3..4 rounds'}
+        return {'statistics': 'P<=9 K<=4 n<=4 (13 shapes); biased symbolic', 'tasks': 'K<=5, (N,W) in {(1,1),(2,1),(1,2),(2,2),(1,3),(2,3)}, all completion orders',
+                'after repopulation': 'P<=8,K<=3,m<=3', 'rounds with real repopulation': 'P in {5,6}, K=2, m in {2,3}, 3..4 rounds'}
 
     def configs(self, tier):
         q = tier == 'quick'
         cfgs = []
         for (P, K, n) in ([(4, 2, 1), (4, 2, 2), (5, 2, 2)] if q else
-                          [(4, 2, 1), (4, 2, 2), (5, 2, 2), (6, 2, 2), (6, 3, 2), (6, 2, 3), (6, 3, 1), (7, 2, 2), (7, 3, 2)]):
+                          [(4, 2, 1), (4, 2, 2), (5, 2, 2), (6, 2, 2), (6, 3, 2), (6, 2, 3), (6, 3, 1), (7, 2, 2), (7, 3, 2),
+                           (8, 2, 2), (8, 3, 1), (8, 4, 1), (7, 2, 3), (9, 2, 1), (6, 2, 4)]):
             cfgs.append(Config('stats_P%d_K%d_n%d' % (P, K, n), self.stats, {'P': P, 'K': K, 'n': n},
                                split=2, witness_every=3))
-        for (P, K, mmax) in ([(5, 2, 1)] if q else [(5, 2, 2), (6, 3, 1), (6, 2, 2)]):
+        for (P, K, mmax) in ([(5, 2, 1)] if q else [(5, 2, 2), (6, 3, 1), (6, 2, 2), (7, 3, 2), (8, 2, 3)]):
             cfgs.append(Config('repop_then_stats_P%d_K%d' % (P, K), self.after_repop, {'P': P, 'K': K, 'mmax': mmax},
                                split=3))
         for (K, N, W) in ([(2, 1, 1), (3, 2, 1), (2, 1, 2)] if q else
-                          [(2, 1, 1), (3, 2, 1), (2, 1, 2), (4, 1, 1), (3, 2, 2), (3, 1, 3)]):
+                          [(2, 1, 1), (3, 2, 1), (2, 1, 2), (4, 1, 1), (3, 2, 2), (3, 1, 3), (5, 1, 1), (4, 2, 1), (2, 2, 3)]):
             for lamform in ('scalar', 'matrix'):
                 cfgs.append(Config('tasks_K%d_N%d_W%d_%s' % (K, N, W, lamform), self.tasks,
                                    {'K': K, 'N': N, 'W': W, 'lamform': lamform}))
